@@ -73,6 +73,19 @@ def run(P, chk, tier):
     loops = b.loops()
     globs = [(bb, t) for bb, t in h.calls() if (callee_def(t) or "").endswith("FileSystem::glob")]
     recs = [(bb, t) for bb, t in b.calls() if LI in callee_names(t)]
+    # the recursion may sit in a closure handed to try_for_each / for_each over the match list: the combinator call
+    # then stands for the loop, the closure's argument for the loop element
+    comb = None
+    if not recs:
+        for cb in P.closures_of(LI, recursive=False):
+            for cbb_, ct_ in cb.calls():
+                if LI in callee_names(ct_):
+                    for xbb, xt in b.calls():
+                        if (callee_def(xt) or "") in ("std::iter::Iterator::try_for_each", "std::iter::Iterator::for_each") and \
+                                any(r.kind in ("agg", "closure") and str(r.name).replace("closure:", "") == cb.key
+                                    for r in prov(b, xt["args"][1])):
+                            recs.append((xbb, ct_))
+                            comb = (cb, xbb, xt)
     if len(globs) != 1 or len(recs) != 1:
         chk.anchor_missing("load_impl: expected one glob and one recursive call, found %d / %d" % (len(globs), len(recs)))
         return
@@ -139,7 +152,17 @@ def run(P, chk, tier):
     if ok and hbb is not None:
         ok = all(hbb in loops[hh] for hh in entry_loops)
         detail = "the include is not resolved inside the entry loop"
-    if ok:
+    if ok and comb is not None:
+        cb, xbb, xt = comb
+        site = gbb if h is b else hbb
+        cs = q.chains(b, xt["args"][0], stop=lambda r: r.kind == "call" and r.site == site)
+        names = set(n.rsplit("::", 1)[-1] for cn, r in cs for n in cn)
+        bad = names & {"rev", "skip", "take", "filter", "step_by", "skip_while", "take_while", "filter_map"}
+        ok = not bad and bool(cs) and all(r.kind == "call" and r.site == site for cn, r in cs)
+        detail = "match list traversed through %s" % sorted(bad) if bad else "the combinator does not traverse the sorted glob result"
+        # the file loaded is the element handed to the closure
+        ok = ok and q.all_roots(cb, rt["args"][2], lambda r: r.kind == "param" and r.name.startswith("2:"))
+    elif ok:
         ih = min(inner, key=lambda hh: len(loops[hh]))
         nexts = [(bb, b.term(bb)) for bb in loops[ih] if b.term(bb)["k"] == "call" and callee_def(b.term(bb)) == "std::iter::Iterator::next"
                  and "PathBuf" in b.local_ty(b.term(bb)["args"][0]["place"]["l"])]
@@ -263,7 +286,7 @@ def run(P, chk, tier):
         for bb, t in body.calls():
             cd = callee_def(t) or ""
             if cd in ("glob::glob_with", "glob::Pattern::matches_path_with", "glob::Pattern::matches_with"):
-                okm = q.all_roots(body, t["args"][-1], lambda r: r.kind == "call" and r.name == go.key)
+                okm = q.all_roots_x(P, body, t["args"][-1], lambda r: r.kind == "call" and r.name == go.key)
                 chk.require(okm, R_OPTS, "%s|options from glob_match_options" % cd, body.loc(bb),
                             "a glob match uses other options: %s" % mir.prov_strs(body, t["args"][-1]), "options = glob_match_options()")
             if cd in ("glob::glob", "glob::Pattern::matches", "glob::Pattern::matches_path"):
